@@ -48,7 +48,7 @@ def run(ctx) -> None:
     ctx.rule("b.length-before-result", "in _elementwise_operation / __radd__ nothing is returned for a vector/sequence operand "
                                        "before the lengths have been compared", 2)
     ctx.rule("c.pairing", "kernel elements are op_func(x, y) with x from self and y from other (scalar: op_func(x, other)); "
-                          "reflected addition computes <other element> + <self element>", 6)
+                          "reflected addition computes <other element> + <self element>", 4)
     ctx.rule("d.table-arithmetic", "table arithmetic maps op_func(col, other) over exactly self.cols(), or pairs self.cols() "
                                    "with other.cols() after a width check", 2)
     ctx.rule("e.wrappers", "each _String/_Date wrapper applies the str/date method of ITS OWN NAME to every element with the "
@@ -249,104 +249,185 @@ def _zips(ctx) -> None:
                            f"raising length comparison of these operands")
 
 
+def _kernel_sites(prog, q):
+    """(site, comprehension parts) for every vector result built in function q (closures / later helpers in line)."""
+    from ..sites2 import all_sites2, comp_parts, leaves
+    f = prog.func(q)
+    out = []
+    for s in all_sites2(prog):
+        if s.top is not f or s.kind not in ("Vector", "cls"):
+            continue
+        for d in leaves(s.data):
+            out.append((s, d, comp_parts(s.it, d)))
+    return f, out
+
+
 def _length_first(ctx) -> None:
+    """Every result whose elements pair self with a vector / sequence operand is produced only where the lengths were compared
+    (a raising `len(self) != len(other)` on the way) - decided on the symx event log."""
+    from ..symx import flatten_conds, show
     ctx.extra.setdefault("note", "zip() calls outside the operator code (assignment, renames, display, joins) belong to C08/C09/C20")
     prog = ctx.prog
+    from ..sites2 import interp_of
+    from ..symx import subterms
     for q in ("vector.Vector._elementwise_operation", "vector.Vector.__radd__"):
         f = prog.func(q)
-        other = f.params[1]
-        res = Resolver(prog, f)
+        it = interp_of(prog, f)
+        SELF = ("param", f.params[0])
+        others = (("param", f.params[1]), ("call", ("attr", SELF, "_check_duplicate"), (("param", f.params[1]),), ()))
         problems = []
-        for s in walk_stmts(f.body):
-            if not isinstance(s, ast.Return):
+        for e in it.events:
+            if e.kind != "return" or e.depth != 0:
                 continue
-            gs = res.guards(s)
-            texts = [(short(t), pol) for t, pol in gs]
-            if any("ndims() == 2" in t and pol for t, pol in texts):
+            fc = flatten_conds(e.conds)
+            if any(pol and any(x[0] == "call" and x[1][0] == "attr" and x[1][2] == "ndims" for x in subterms(t)) for t, pol in fc):
                 continue                                         # table cases A / B
-            in_seq = any(pol and (t == f"isinstance({other}, Vector)" or t.startswith(f"isinstance({other}, Iterable)")) for t, pol in texts)
-            scalar = (any((not pol) and t == f"isinstance({other}, Vector)" for t, pol in texts)
-                      and any((not pol) and t.startswith(f"isinstance({other}, Iterable)") for t, pol in texts)) or \
-                any(pol and t.startswith(f"not isinstance({other}, Iterable)") for t, pol in texts)
+
+            def isinst(t, cls):
+                return t[0] == "call" and t[1] == ("name", "isinstance") and len(t[2]) == 2 and t[2][0] in others and t[2][1] == ("name", cls)
+            def seq_form(t) -> bool:
+                """does t (taken true) say: the operand is a vector or a non-string iterable?"""
+                if isinst(t, "Vector") or isinst(t, "Iterable"):
+                    return True
+                if t[0] == "bool" and t[1] == "and":
+                    return any(seq_form(x) for x in t[2])
+                if t[0] == "bool" and t[1] == "or":
+                    return all(seq_form(x) for x in t[2])
+                return False
+
+            def scalar_form(t, pol) -> bool:
+                """does (t, pol) say: the operand is not an iterable (or is a string: one cell)?"""
+                if not pol:
+                    return any(isinst(x, "Iterable") for x in subterms(t)) and not isinst(t, "Vector")
+                return t[0] == "bool" and t[1] == "or" and any(x[0] == "un" and x[1] == "Not" and isinst(x[2], "Iterable") for x in t[2])
+            in_seq = any(pol and seq_form(t) for t, pol in fc)
+            scalar = any((not pol) and isinst(t, "Vector") for t, pol in fc) and any(scalar_form(t, pol) for t, pol in fc)
             if in_seq:
-                if not any((not pol) and t in (f"len(self) != len({other})", f"len({other}) != len(self)") for t, pol in texts):
-                    problems.append(f"`{short(s, 60)}` (line {s.lineno}) returns a result for a vector/sequence operand before "
-                                    f"`len(self) != len({other})` has been checked: different lengths would not raise")
+                ln_s = ("call", ("name", "len"), (SELF,), ())
+                checked = any(pol and t[0] == "cmp" and t[1] == "Eq" and ln_s in (t[2], t[3])
+                              and any(("call", ("name", "len"), (o,), ()) in (t[2], t[3]) for o in others) for t, pol in fc)
+                if not checked:
+                    problems.append(f"`return {show(e.term, it)[:60]}` (line {getattr(e.node, 'lineno', '?')}) returns a result for a "
+                                    f"vector/sequence operand before `len(self) != len({f.params[1]})` has been checked: different lengths "
+                                    f"would not raise")
             elif not scalar:
-                problems.append(f"`{short(s, 60)}` (line {s.lineno}) returns before the operand form is known and the lengths compared "
-                                f"(guards: {[t for t, _ in texts][:3]})")
+                problems.append(f"`return {show(e.term, it)[:60]}` (line {getattr(e.node, 'lineno', '?')}) returns before the operand form is "
+                                f"known and the lengths compared")
+        seen = set()
+        problems = [p_ for p_ in problems if not (p_ in seen or seen.add(p_))]
         ctx.ob("b.length-before-result", f, "returns", not problems, "every result for a sequence operand follows the length comparison",
                f.node, message="; ".join(problems[:2]))
 
 
 # ---------------------------------------------------------------------------------------------
 def _pairing(ctx) -> None:
+    from ..symx import NONE as SNONE
+    from ..symx import flatten_conds, show
     prog = ctx.prog
-    f = prog.func("vector.Vector._elementwise_operation")
-    other, opf = f.params[1], f.params[2]
-    n = 0
-    for s in walk_stmts(f.body):
-        if isinstance(s, ast.Assign) and isinstance(s.value, ast.Call) and short(s.value.func) == "tuple" and s.value.args \
-                and isinstance(s.value.args[0], ast.GeneratorExp):
-            g = s.value.args[0]
-            gen = g.generators[0]
-            if isinstance(g.elt, ast.Tuple):
-                continue                                        # the (x, y) fallback of incompatible types
-            n += 1
-            problems = []
-            if isinstance(gen.target, ast.Tuple):
-                x, y = [e.id for e in gen.target.elts]
-                it = gen.iter
-                if not (isinstance(it, ast.Call) and short(it.func) == "zip" and [short(a) for a in it.args] == ["self", other]):
-                    problems.append(f"operands paired by `{short(it)}`, expected zip(self, {other}, strict=True)")
-                want = f"None if {x} is None or {y} is None else {opf}({x}, {y})"
+    f, sites = _kernel_sites(prog, "vector.Vector._elementwise_operation")
+    SELF = ("param", f.params[0])
+    others = (("param", f.params[1]), ("call", ("attr", SELF, "_check_duplicate"), (("param", f.params[1]),), ()))
+    opf = ("param", f.params[2])
+    seen_comps = {}
+    for s, d, cp in sites:
+        if cp is None or len(cp[0]) != 1:
+            continue
+        it = s.it
+        (L,), extra, v, ev = cp
+        if v[0] == "tuple":
+            continue                                        # the (x, y) fallback of incompatible types
+        key = (id(it), d)
+        if key in seen_comps:
+            continue
+        lp = it.loops[L]
+        problems = []
+        if lp.domain is not None and lp.domain[0] == "tuple":
+            doms = lp.domain[1]
+            if not (len(doms) == 2 and doms[0] == SELF and doms[1] in others):
+                problems.append(f"operands paired by `{show(lp.iter, it)[:50]}`, expected zip(self, {f.params[1]}, strict=True)")
+                x = y = None
             else:
-                x = gen.target.id
-                if short(gen.iter) not in ("self", "self._underlying"):
-                    problems.append(f"scalar branch iterates `{short(gen.iter)}`")
-                want = f"None if {x} is None else {opf}({x}, {other})"
-            if gen.ifs:
-                problems.append("elements are filtered: the result would be shorter than the operands")
-            if short(g.elt, 200) != want:
-                problems.append(f"element is `{short(g.elt, 80)}`, expected `{want}`")
-            ctx.ob("c.pairing", f, f"kernel:{n}", not problems, want, s, message="; ".join(problems))
-    if n != 3:
-        raise AnalysisError(f"_elementwise_operation: expected 3 kernel comprehensions, found {n}")
+                x, y = ("elem", doms[0], L), ("elem", doms[1], L)
+                want = ("ifexp", ("bool", "or", (("cmp", "Is", x, SNONE), ("cmp", "Is", y, SNONE))), SNONE, ("call", opf, (x, y), ()))
+                wtxt = "None if x is None or y is None else op_func(x, y)"
+        elif lp.iter in (SELF, ("attr", SELF, "_underlying")):
+            x = ("elem", lp.iter, L)
+            want = None
+            wtxt = f"None if x is None else op_func(x, {f.params[1]})"
+            if not (v[0] == "ifexp" and v[1] == ("cmp", "Is", x, SNONE) and v[2] == SNONE and v[3][0] == "call" and v[3][1] == opf
+                    and len(v[3][2]) == 2 and v[3][2][0] == x and v[3][2][1] in others):
+                problems.append(f"element is `{show(v, it)[:80]}`, expected `{wtxt}`")
+        else:
+            if not any(t == opf for t in __import__("serifscan.symx", fromlist=["subterms"]).subterms(v)):
+                continue                                    # not a kernel computation
+            problems.append(f"kernel iterates `{show(lp.iter, it)[:50]}`, not self (paired with the other operand)")
+            want = None
+            wtxt = "?"
+        if extra:
+            problems.append("elements are filtered: the result would be shorter than the operands")
+        if want is not None and v != want:
+            problems.append(f"element is `{show(v, it)[:80]}`, expected `{wtxt}`")
+        seen_comps[key] = True
+        ctx.ob("c.pairing", f, f"kernel:{len(seen_comps)}", not problems, wtxt, ev.node, message="; ".join(problems))
+    if len(seen_comps) < 2:
+        raise AnalysisError(f"_elementwise_operation: expected a paired and a scalar kernel, found {len(seen_comps)}")
     # __radd__
-    f = prog.func("vector.Vector.__radd__")
-    other = f.params[1]
-    delegated = _single_return(f)
-    if delegated is not None or not any(isinstance(s, ast.For) for s in walk_stmts(f.body)):
+    f, sites = _kernel_sites(prog, "vector.Vector.__radd__")
+    SELF = ("param", f.params[0])
+    others = (("param", f.params[1]), ("call", ("attr", SELF, "_check_duplicate"), (("param", f.params[1]),), ()))
+    from ..sites2 import interp_of
+    it0 = interp_of(prog, f)
+    rets = [e for e in it0.events if e.kind == "return" and e.depth == 0]
+    if not sites:
         # delegation form: must go through the kernel with a verified _reverse_add
-        calls = [c for c in prog.calls_in(f) if isinstance(c.func, ast.Attribute) and c.func.attr == "_elementwise_operation"]
-        rets = [s for s in walk_stmts(f.body) if isinstance(s, ast.Return)]
-        ok = bool(calls) and all(short(c.args[1]) == "_reverse_add" and short(c.args[0]) == other for c in calls) \
-            and all(isinstance(r.value, ast.Call) and r.value in calls for r in rets) and prog.has_func("vector._reverse_add")
+        ok = bool(rets) and prog.has_func("vector._reverse_add") and all(
+            r.term[0] == "call" and r.term[1] == ("attr", SELF, "_elementwise_operation") and len(r.term[2]) == 2
+            and r.term[2][0] in others and r.term[2][1] == ("name", "_reverse_add") for r in rets)
         ctx.ob("c.pairing", f, "radd", ok, "__radd__ delegates every operand form to the kernel with _reverse_add", f.node,
                message="__radd__ does not compute <other element> + <self element> for every operand form: "
-                       + "; ".join(f"`{short(r.value, 60)}`" for r in rets if not (isinstance(r.value, ast.Call) and r.value in calls
-                                                                               and short(r.value.args[1]) == "_reverse_add")))
+                       + "; ".join(f"`{show(r.term, it0)[:60]}`" for r in rets))
         return
     k = 0
-    for lp in [s for s in walk_stmts(f.body) if isinstance(s, ast.For)]:
+    seen_comps = {}
+    for s, d, cp in sites:
+        it = s.it
+        key = (id(it), d)
+        if key in seen_comps:
+            continue
+        seen_comps[key] = True
         k += 1
         problems = []
-        adds = [n for n in walk_no_nested(lp) if isinstance(n, ast.BinOp) and isinstance(n.op, ast.Add)]
-        if isinstance(lp.target, ast.Tuple):
-            x, y = [e.id for e in lp.target.elts]
-            if not (isinstance(lp.iter, ast.Call) and short(lp.iter.func) == "zip" and [short(a) for a in lp.iter.args] == [other, "self"]):
-                problems.append(f"operands paired by `{short(lp.iter)}`, expected zip({other}, self, strict=True)")
-            want = f"{x} + {y}"
+        if cp is None or len(cp[0]) != 1:
+            problems.append(f"result data `{s.sh(d, 50)}` is not one value per element")
+            ctx.ob("c.pairing", f, f"radd:{k}", False, "", s.node, message="; ".join(problems))
+            continue
+        (L,), extra, v, ev = cp
+        lp = it.loops[L]
+        if lp.domain is not None and lp.domain[0] == "tuple":
+            doms = lp.domain[1]
+            if not (len(doms) == 2 and doms[0] in others and doms[1] == SELF):
+                problems.append(f"operands paired by `{show(lp.iter, it)[:50]}`, expected zip({f.params[1]}, self, strict=True)")
+                want = None
+            else:
+                x, y = ("elem", doms[0], L), ("elem", doms[1], L)
+                want = ("ifexp", ("bool", "or", (("cmp", "Is", x, SNONE), ("cmp", "Is", y, SNONE))), SNONE, ("bin", "Add", x, y))
         else:
-            x = lp.target.id
-            if short(lp.iter) not in ("self", "self._underlying"):
-                problems.append(f"scalar branch iterates `{short(lp.iter)}`")
-            want = f"{other} + {x}"
-        if [short(a) for a in adds] != [want]:
-            problems.append(f"the element operation is {[short(a) for a in adds]}, expected `{want}` (other operand on the LEFT)")
-        ctx.ob("c.pairing", f, f"radd:{k}", not problems, want, lp, message="; ".join(problems))
-    if k != 3:
-        raise AnalysisError(f"__radd__: expected 3 element loops, found {k}")
+            if lp.iter not in (SELF, ("attr", SELF, "_underlying")):
+                problems.append(f"scalar branch iterates `{show(lp.iter, it)[:40]}`")
+            x = ("elem", lp.iter, L)
+            want = None
+            if not (v[0] == "ifexp" and v[1] == ("cmp", "Is", x, SNONE) and v[2] == SNONE and v[3][0] == "bin" and v[3][1] == "Add"
+                    and v[3][2] in others and v[3][3] == x):
+                problems.append(f"the element operation is `{show(v, it)[:70]}`, expected `None if x is None else {f.params[1]} + x` "
+                                f"(other operand on the LEFT)")
+        if extra:
+            problems.append("elements are filtered")
+        if want is not None and v != want:
+            problems.append(f"the element operation is `{show(v, it)[:70]}`, expected `None if either is None else <other element> + <self "
+                            f"element>` (other operand on the LEFT)")
+        ctx.ob("c.pairing", f, f"radd:{k}", not problems, "<other element> + <self element>, None kept", ev.node, message="; ".join(problems))
+    if k < 2:
+        raise AnalysisError(f"__radd__: expected a paired and a scalar element computation, found {k}")
 
 
 def _table(ctx) -> None:
